@@ -30,9 +30,12 @@ POLL_MENU = ['msg', 'ping', 'noop', 'close', 'unknown', 'garbage', 's400', 'err'
 POST_MENU = ['ok', 's400', 'err']
 
 
-def connect_response(kind):
+FRAC = {'pingInterval': 1500, 'pingTimeout': 500}      # a heartbeat announced in fractions of a second
+
+
+def connect_response(kind, frac=False):
     """-> ('resp', status, body, ctype) | ('fail',) | ('silence',)"""
-    o = '0' + json.dumps(OPEN)
+    o = '0' + json.dumps(dict(OPEN, **FRAC) if frac else OPEN)
     return {
         'refused': ('fail',), 'timeout': ('silence',),
         '400json': ('resp', 400, '"bad"', 'application/json'),
@@ -43,7 +46,7 @@ def connect_response(kind):
         '200nonopen': ('resp', 200, '4hello', 'text/plain'),
         '200open_not_object': ('resp', 200, '0"str"', 'text/plain'),
         'open': ('resp', 200, o, 'text/plain'),
-        'open_up': ('resp', 200, '0' + json.dumps(OPEN_UP), 'text/plain'),
+        'open_up': ('resp', 200, '0' + json.dumps(dict(OPEN_UP, **FRAC) if frac else OPEN_UP), 'text/plain'),
         'open_more': ('resp', 200, o + '\x1e4first', 'text/plain'),
     }[kind]
 
@@ -109,7 +112,7 @@ class Lifecycle(core.Scenario):
         # the first request answered is the connect
         tr0 = (self.transports or ['polling'])[0]
         if tr0 == 'polling':
-            srv.append(get_answer(lambda: connect_response(p['connect']), p['connect']))
+            srv.append(get_answer(lambda: connect_response(p['connect'], p.get('frac')), p['connect']))
             if p['connect'] == 'open_up':
                 srv += self.ws_handshake_actions(p.get('ws', ['accept', 'probe_ok']))
         else:
@@ -222,7 +225,7 @@ class Lifecycle(core.Scenario):
 
         def fire_o(s):
             ws = [x for x in s.world.server.wss if x.accepted][-1]
-            item = {'open': '0' + json.dumps(OPEN), 'nonopen': '4hello', 'garbage': 'x', 'close': ('close',)}.get(what)
+            item = {'open': '0' + json.dumps(dict(OPEN, **FRAC) if s.params.get('frac') else OPEN), 'nonopen': '4hello', 'garbage': 'x', 'close': ('close',)}.get(what)
             if item is not None:
                 s.world.ws_push(ws, item)
         if what != 'silence':
@@ -290,12 +293,13 @@ class Lifecycle(core.Scenario):
                 self.flag('connect_event_count', 'events %r' % kinds, trigger=trig)
             else:
                 snap = ev[0][1]
-                if snap.get('sid') != 'S1' or snap.get('pi') != 1.0 or snap.get('pt') != 1.0:
-                    self.flag('open_not_adopted', 'adopted %r, announced sid=S1 1000/1000 ms' % (snap,), trigger=trig)
+                want_t = (1.5, 0.5) if p.get('frac') else (1.0, 1.0)
+                if snap.get('sid') != 'S1' or (snap.get('pi'), snap.get('pt')) != want_t:
+                    self.flag('open_not_adopted', 'adopted %r, announced sid=S1 %d/%d ms' % (snap, want_t[0] * 1000, want_t[1] * 1000), trigger=trig)
             if p.get('spacing') and self.pos[0] < len(self.scripts[0]):
                 # the paced server never went silent for ping_interval + ping_timeout, yet the client ended the connection before
                 # the server had said everything it had to say
-                self.flag('healthy_connection_given_up', 'the server paced its answers %.3f s apart (ping_interval 1 s, ping_timeout 1 s); the client '
+                self.flag('healthy_connection_given_up', 'the server paced its answers %.3f s apart (within the announced ping_interval + ping_timeout = 2 s); the client '
                           'ended the connection before answer #%d: events %r' % (p['spacing'], self.pos[0], [e[:2] for e in ev]), trigger=trig)
             nd = kinds.count('disconnect')
             if nd != 1:
@@ -536,6 +540,10 @@ def param_list(ctx):
                           (None, {'connect': 'open_up', 'ws': ['accept', 'probe_ok']})):
             for nb in ((4,) if ctx.quick else (3, 5)):
                 ps.append(dict({'impl': impl, 'transports': tr, 'polls': ['ping'] * nb + ['close'], 'spacing': 1.375}, **extra))
+        # 4c. a heartbeat announced as 1500 / 500 ms: the first PING comes after 1.75 s, within the announced bound
+        for tr, extra in ((['polling'], {'connect': 'open'}), (['websocket'], {'connect': '-', 'ws': ['accept', 'open']}),
+                          (None, {'connect': 'open_up', 'ws': ['accept', 'probe_ok']})):
+            ps.append(dict({'impl': impl, 'transports': tr, 'polls': ['ping', 'close'], 'spacing': 1.75, 'frac': True}, **extra))
         # 5. upgrade attempts
         for beh in (['refuse'], ['accept', 'probe_ok'], ['accept', 'probe_wrong'], ['accept', 'probe_silence'],
                     ['accept', 'probe_close'], ['accept', 'probe_garbage'], ['accept', 'probe_ok_drop']):
